@@ -6,7 +6,7 @@ import z3
 from symtrace import engine as E, harness as H, oblig as O
 from . import catalogue as CAT
 from . import common as C
-from .catjob import Job, gtag, cfg_json
+from .catjob import lookup, Job, gtag, cfg_json
 from .c01 import is_heavy
 
 PID = "C06"
@@ -42,8 +42,8 @@ def jobs(tier):
 
 
 def run_job(env, spec):
-    entry = CAT.by_name(spec["cfg"]["n"], "thorough")[spec["entry"]]
-    job = Job(PID, env, spec, entry)
+    entry = lookup(spec)
+    job = Job(spec.get("pid", PID), env, spec, entry, spec.get("catalogue", "checks.catalogue"))
     H.STATS.__init__()
     classes = {}       # canonical trace -> (cfg, trace, vals)
     total = 0
